@@ -370,6 +370,7 @@ class Canon(object):
         self.never_none = set(never_none)
         self.sentinels = set(sentinels)
         self._thread_mode = 'none'
+        self._push_known = 0
 
     def _truth_state(self, stmts, x):
         """like _none_state, for the truth value of x: True / False when the block ends by binding x to a literal, 'dead', else None"""
@@ -403,6 +404,49 @@ class Canon(object):
                 if nm in self.never_none:
                     return False
         return None
+
+    def _continues_ok(self, body):
+        """every `continue` of the loop body is in tail position of an if-chain of the body itself (not inside an inner loop / try / with), and
+        the body has no return (so that, unrolled, `continue` can be written as "skip the rest of this copy")"""
+        if not any(isinstance(x, ast.Continue) for b in body for x in ast.walk(b)):
+            return True
+        if any(isinstance(x, ast.Return) for b in body for x in ast.walk(b)):
+            return False
+
+        def ok(stmts):
+            for i, st in enumerate(stmts):
+                if isinstance(st, ast.Continue):
+                    if i != len(stmts) - 1:
+                        return False
+                elif isinstance(st, ast.If):
+                    if not ok(st.body) or not ok(st.orelse):
+                        return False
+                elif any(isinstance(x, ast.Continue) for x in ast.walk(st)):
+                    return False
+            return True
+        return ok(body)
+
+    def _drop_continues(self, stmts):
+        """the statements with every `continue` removed and what follows an if whose branch continued moved into the other branch"""
+        out = []
+        for i, st in enumerate(stmts):
+            if isinstance(st, ast.Continue):
+                return out
+            if isinstance(st, ast.If) and any(isinstance(x, ast.Continue) for x in ast.walk(st)):
+                rest = stmts[i + 1:]
+                b_c = any(isinstance(x, ast.Continue) for z in st.body for x in ast.walk(z))
+                e_c = any(isinstance(x, ast.Continue) for z in st.orelse for x in ast.walk(z))
+                ends = lambda arm: bool(arm) and isinstance(arm[-1], ast.Continue)
+                if b_c and e_c:
+                    nb, ne = self._drop_continues(list(st.body) + ([] if ends(st.body) else rest)), self._drop_continues(list(st.orelse) + ([] if ends(st.orelse) else rest))
+                elif b_c:
+                    nb, ne = self._drop_continues(list(st.body) + rest), self._drop_continues(list(st.orelse) + rest)
+                else:
+                    nb, ne = self._drop_continues(list(st.body) + rest), self._drop_continues(list(st.orelse) + rest)
+                out.append(ast.copy_location(ast.If(test=st.test, body=nb or [ast.copy_location(ast.Pass(), st)], orelse=ne), st))
+                return out
+            out.append(st)
+        return out
 
     def _seq_literal(self, e, depth=0):
         """the elements of a literal sequence expression: a tuple / list display of call-free elements, a `+` of such, or a local of the
@@ -519,8 +563,10 @@ class Canon(object):
             return list(stmts)
         if st in (True, False):
             taken = nxt.body if (st == is_none_true) else nxt.orelse
+            self._push_known += 1
             return list(stmts) + [copy.deepcopy(z) for z in taken]
-        return None
+        # not known here: the test itself is repeated at this place (it runs right after the block either way)
+        return list(stmts) + [copy.deepcopy(nxt)]
 
     def thread(self, body):
         """N38  <if/else (chain) whose branches end by binding x> ; if x is [not] None: B [else: C]   ->   the second test moves into the branches of
@@ -549,7 +595,10 @@ class Canon(object):
                     is_none_true = not neg          # (here: the test is true exactly when x is TRUE)
                     self._thread_mode = 'truth'
                 if x is not None:
+                    self._push_known = 0
                     new = self._push([s], x, nxt, is_none_true)
+                    if self._push_known == 0:
+                        new = None          # nothing would be decided: leave the code as it is
                     if new is not None and len(new) == 1:
                         ns = new[0]
                         ns.body = self.block(ns.body) or [ast.copy_location(ast.Pass(), s)]
@@ -1096,7 +1145,58 @@ class Canon(object):
                 out[name] = st
         return out
 
+    def _module_tuples(self, tree):
+        """module-level names bound once to a tuple display of call-free elements (types, names, constants) and never re-bound"""
+        cnt, val = {}, {}
+        for st in tree.body:
+            if isinstance(st, ast.Assign):
+                for t in st.targets:
+                    for x in ast.walk(t):
+                        if isinstance(x, ast.Name):
+                            cnt[x.id] = cnt.get(x.id, 0) + 1
+                            val[x.id] = st if (len(st.targets) == 1 and t is x) else None
+        out = {}
+        for name, st in val.items():
+            if st is None or cnt[name] != 1 or not isinstance(st.value, ast.Tuple) or not (1 <= len(st.value.elts) <= 24):
+                continue
+            if not all(_pure(e) and not isinstance(e, ast.Starred) for e in st.value.elts):
+                continue
+            if any((isinstance(n, ast.Name) and n.id == name and isinstance(n.ctx, (ast.Store, ast.Del)) and n is not st.targets[0]) or
+                   (isinstance(n, ast.Global) and name in n.names) for n in ast.walk(tree)):
+                continue
+            out[name] = st.value
+        return out
+
     def module(self, tree):
+        self.mod_tuples = self._module_tuples(tree)
+        if self.mod_tuples:
+            mt = self.mod_tuples
+
+            class _MT(ast.NodeTransformer):
+                # isinstance(x, NAME) / x in NAME / for .. in NAME with NAME a module-level tuple constant: the tuple is written out
+                def visit_Call(self_, n):
+                    self_.generic_visit(n)
+                    if isinstance(n.func, ast.Name) and n.func.id == 'isinstance' and len(n.args) == 2 and isinstance(n.args[1], ast.Name) and n.args[1].id in mt:
+                        n.args[1] = copy.deepcopy(mt[n.args[1].id])
+                    return n
+
+                def visit_Compare(self_, n):
+                    self_.generic_visit(n)
+                    if len(n.ops) == 1 and isinstance(n.ops[0], (ast.In, ast.NotIn)) and isinstance(n.comparators[0], ast.Name) and n.comparators[0].id in mt:
+                        n.comparators[0] = copy.deepcopy(mt[n.comparators[0].id])
+                    return n
+
+                def visit_For(self_, n):
+                    self_.generic_visit(n)
+                    if isinstance(n.iter, ast.Name) and n.iter.id in mt:
+                        n.iter = copy.deepcopy(mt[n.iter.id])
+                    return n
+            # (not inside functions that bind a local of the same name)
+            for fn in ast.walk(tree):
+                if isinstance(fn, (ast.FunctionDef, ast.AsyncFunctionDef)):
+                    local = set(x.id for x in ast.walk(fn) if isinstance(x, ast.Name) and isinstance(x.ctx, ast.Store)) | set(a.arg for a in fn.args.args)
+                    if not (local & set(mt)):
+                        _MT().visit(fn)
         tree = self.ex.visit(tree)
         unshare(tree)
         self.mod_tables = self._module_tables(tree)
@@ -1124,6 +1224,23 @@ class Canon(object):
         """statement-level rewrites that create structure (run before the children are visited)"""
         out = []
         for s in body:
+            # N13b  if x is None: x = None ; ...   -> the re-binding of x to the value the test just established is dropped
+            if isinstance(s, ast.If):
+                t_ = s.test
+                neg_ = False
+                while isinstance(t_, ast.UnaryOp) and isinstance(t_.op, ast.Not):
+                    t_, neg_ = t_.operand, not neg_
+                if isinstance(t_, ast.Compare) and len(t_.ops) == 1 and isinstance(t_.ops[0], (ast.Is, ast.IsNot)) and isinstance(t_.left, ast.Name) \
+                        and isinstance(t_.comparators[0], ast.Constant) and t_.comparators[0].value is None:
+                    none_arm = s.body if (isinstance(t_.ops[0], ast.Is) != neg_) else s.orelse
+                    if none_arm and isinstance(none_arm[0], ast.Assign) and len(none_arm[0].targets) == 1 and isinstance(none_arm[0].targets[0], ast.Name) \
+                            and none_arm[0].targets[0].id == t_.left.id and isinstance(none_arm[0].value, ast.Constant) and none_arm[0].value.value is None:
+                        rest_ = none_arm[1:] or [ast.copy_location(ast.Pass(), s)]
+                        if none_arm is s.body:
+                            s.body = rest_
+                        else:
+                            s.orelse = [] if (len(rest_) == 1 and isinstance(rest_[0], ast.Pass)) else rest_
+                        self.hit('N13')
             # N32b  x = getattr(obj, '<name>', <default>)   ->   if hasattr(obj, '<name>'): x = obj.<name>  else: x = <default>
             if isinstance(s, (ast.Assign, ast.Return)) and isinstance(s.value, ast.Call) and isinstance(s.value.func, ast.Name) and s.value.func.id == 'getattr' \
                     and len(s.value.args) == 3 and not s.value.keywords and isinstance(s.value.args[1], ast.Constant) and isinstance(s.value.args[1].value, str) \
@@ -1177,6 +1294,16 @@ class Canon(object):
             # N19 a, b = X, Y  with independent sides -> a = X ; b = Y
             if isinstance(s, ast.Assign) and len(s.targets) == 1 and isinstance(s.targets[0], ast.Tuple) and isinstance(s.value, ast.Tuple) \
                     and len(s.targets[0].elts) == len(s.value.elts) and all(isinstance(t, (ast.Name, ast.Attribute)) for t in s.targets[0].elts):
+                # `x, y = x, E`: the identity pair x = x binds nothing new and is dropped (the other values still read the old x)
+                keep = [(t, v) for t, v in zip(s.targets[0].elts, s.value.elts) if not (isinstance(t, ast.Name) and isinstance(v, ast.Name) and t.id == v.id)]
+                if len(keep) != len(s.value.elts) and keep:
+                    if len(keep) == 1:
+                        out.extend(self.expand([ast.copy_location(ast.Assign(targets=[keep[0][0]], value=keep[0][1]), s)]))
+                    else:
+                        out.extend(self.expand([ast.copy_location(ast.Assign(targets=[ast.Tuple(elts=[k[0] for k in keep], ctx=ast.Store())],
+                                                                             value=ast.Tuple(elts=[k[1] for k in keep], ctx=ast.Load())), s)]))
+                    self.hit('N19')
+                    continue
                 tnames = [ast.unparse(t) for t in s.targets[0].elts]
                 # with plain names on the left, evaluating X, binding a, evaluating Y, binding b is the same as evaluating both first
                 # (no value reads an earlier target: checked below); attribute targets need call-free values (a setter could run in between)
@@ -1213,10 +1340,11 @@ class Canon(object):
                 elts = self._seq_literal(s.iter)
                 tnames = [s.target.id] if isinstance(s.target, ast.Name) else \
                     ([t.id for t in s.target.elts] if isinstance(s.target, ast.Tuple) and all(isinstance(t, ast.Name) for t in s.target.elts) else None)
-                if elts is not None and tnames and 1 <= len(elts) <= 6 and (isinstance(s.target, ast.Name) or
+                if elts is not None and tnames and (1 <= len(elts) <= 6 or (len(elts) <= 24 and len(s.body) <= 3 and _size(s.body) <= 60)) and (isinstance(s.target, ast.Name) or
                                                                            all(isinstance(e, (ast.Tuple, ast.List)) and len(e.elts) == len(tnames) for e in elts)) \
                         and (len(elts) >= 2 or not isinstance(s.iter, (ast.Tuple, ast.List)) or isinstance(s.target, ast.Tuple)) \
-                        and not any(isinstance(x, (ast.Break, ast.Continue, ast.FunctionDef, ast.AsyncFunctionDef, ast.Lambda)) for b in s.body for x in ast.walk(b)) \
+                        and self._continues_ok(s.body) \
+                        and not any(isinstance(x, (ast.Break, ast.FunctionDef, ast.AsyncFunctionDef, ast.Lambda)) for b in s.body for x in ast.walk(b)) \
                         and not any(isinstance(x, ast.Name) and x.id in tnames and isinstance(x.ctx, (ast.Store, ast.Del)) for b in s.body for x in ast.walk(b)):
                     class _S(ast.NodeTransformer):
                         def __init__(self, m):
@@ -1227,10 +1355,13 @@ class Canon(object):
                                 return copy.deepcopy(self.m[n.id])
                             return n
                     unrolled = []
+                    has_cont = any(isinstance(x, ast.Continue) for b in s.body for x in ast.walk(b))
                     for e in elts:
                         m = {tnames[0]: e} if isinstance(s.target, ast.Name) else dict(zip(tnames, e.elts))
-                        for b in s.body:
-                            unrolled.append(self.ex.visit(_S(m).visit(copy.deepcopy(b))))
+                        one = [self.ex.visit(_S(m).visit(copy.deepcopy(b))) for b in s.body]
+                        if has_cont:
+                            one = self._drop_continues(one)          # `continue` = skip the rest of THIS copy
+                        unrolled.extend(one)
                     out.extend(self.expand(unrolled))
                     self.hit('N31')
                     continue
